@@ -16,7 +16,7 @@ RULE = ("(a) every name (7 letters x up to 2 sharps/flats = 35) x octaves 0..9 (
         "every step against shadow Note copies (lifting differential) and, for ordinary names, the arithmetic. Non-trivial: a "
         "transposition that crosses an octave boundary (incl. Cb/B# spellings, descending from C); a history of >= 3 steps or one "
         "on a bar holding both a rest and a chord."
-        ' Also: tracks built by Track.from_chords (repeated symbols, nesting, rests), melodic sequences moved by the interval the history then uses, enharmonic twin bars, tracks with an instrument attached, keyword / default direction forms; chords that are not in ascending order and entries held in a user subclass of NoteContainer; change_octave / octave_up / octave_down on notes that transposition has taken below octave 0.')
+        ' Also: tracks built by Track.from_chords (repeated symbols, nesting, rests), melodic sequences moved by the interval the history then uses, enharmonic twin bars, tracks with an instrument attached, keyword / default direction forms; chords that are not in ascending order and entries held in a user subclass of NoteContainer; change_octave / octave_up / octave_down on notes that transposition has taken below octave 0; tracks with an instrument whose notes are transposed beyond its range.')
 ASSUMPTIONS = ["downward transposition is generated from octave >= 1 (the statement does not say what happens below octave 0)",
                "the pitch/letter arithmetic is asserted for names with <= 2 unmixed accidentals (the statement's name domain); "
                "names outside it that arise inside histories are covered by the Note-level differential only",
@@ -262,7 +262,27 @@ def sub_tracks(ctx, shard, n):
     ctx.given("track", check_track, strat, 300 if ctx.quick else 5000)
 
 
+def _edge_tracks():
+    """tracks with an instrument attached whose notes sit at the edges of its range: transposing takes them beyond it (a range only
+    matters when notes are added; transposition applies to every note regardless)"""
+    cases = []
+    for kind in ({"kind": "generic", "name": "g"}, {"kind": "midi", "nr": 40, "name": "Violin"}):
+        for notes, steps in (([["B", 7, 1, 64], ["C", 8, 1, 64]], [["transpose", "track", 0, 0, "5", True]] * 3),
+                             ([["C", 8, 2, 70]], [["augment", "track", 0, 0], ["transpose", "track", 0, 0, "3", True]]),
+                             ([["C", 0, 1, 64], ["E", 0, 1, 64]], [["transpose", "track", 0, 0, "4", False], ["diminish", "track", 0, 0]]),
+                             ([["G", 4, 1, 64]], [["transpose", "track", 0, 0, "7", True]] * 5)):
+            bar = {"key": "C", "meter": [4, 4], "entries": [{"v": [4, 0, 1, 1], "notes": [list(x) for x in notes]},
+                                                                 {"v": [4, 0, 1, 1], "notes": None},
+                                                                 {"v": [2, 0, 1, 1], "notes": [list(notes[0])]}]}
+            cases.append({"track": {"name": "edge", "instr": dict(kind), "bars": [bar, dict(bar)]}, "steps": [list(s) for s in steps]})
+    return cases
+
+
 def sub_special_tracks(ctx, shard, n):
+    if shard == 0:
+        ec = _edge_tracks()
+        ctx.exhaustive("tracks with an instrument whose notes are transposed beyond its range", "2 instruments x 4 edge situations", len(ec))
+        ctx.enumerate("track", check_track, ec)
     chord = st.sampled_from(["C", "Am", "G7", "F", "Dm7", "C", "C"]) | st.none()
     chordlist = st.lists(st.recursive(chord, lambda c: st.lists(c, min_size=1, max_size=3), max_leaves=4), min_size=2, max_size=6)
     from_chords = st.fixed_dictionaries({"chords": chordlist, "duration": st.sampled_from([1, 2, 4]), "steps": _steps_st()})
